@@ -292,16 +292,32 @@ def roundtrip(i: Optional[int], b: Optional[bool], s: Optional[str], l: List[int
             and ((back.sub is None) if not has_sub else (back.sub is not None and back.sub.n == n and back.sub.t is None)))
 
 
-def shapes() -> int:
-    """Native precheck: the stand-in shapes are what the real constructors produce."""
+def shapes(dummy: bool) -> bool:
+    """
+    post: _
+    """
+    # the stand-in shapes used by the other harnesses are what the real constructors produce
+    # (parse_obj -> nested partial instances, to_partial -> nested complete instances), constants
+    # are ignored by merges, partial classes mirror inheritance
+    reach()
     a = PM.parse_obj({"sub": {"n": 1}})
-    assert type(a.sub) is PI, type(a.sub)
+    if type(a.sub) is not PI:
+        return False
     b = PM.to_partial(M(sub=Inner(n=1)))
-    assert type(b.sub) is Inner, type(b.sub)
-    assert norm(a) == {"sub": {"n": 1}} and norm(b)["sub"] == {"n": 1}
-    assert norm(mk(1, True, "x", [1], {2}, mk_inner(PARTIAL, 3))) == \
-        norm(PM.parse_obj({"i": 1, "b": True, "s": "x", "l": [1], "st": [2], "sub": {"n": 3}}))
+    if type(b.sub) is not Inner:
+        return False
+    if norm(a) != {"sub": {"n": 1}} or norm(b)["sub"] != {"n": 1}:
+        return False
+    if norm(mk(1, True, "x", [1], {2}, mk_inner(PARTIAL, 3))) != \
+            norm(PM.parse_obj({"i": 1, "b": True, "s": "x", "l": [1], "st": [2], "sub": {"n": 3}})):
+        return False
     c = PM.parse_obj({"kind": "zzz", "i": 1})
-    assert "kind" not in dict(PartialSchemas._get_field_vals(c)), "constant must be ignored by merges"
-    assert issubclass(PIS, PI)
-    return 5
+    if "kind" in dict(PartialSchemas._get_field_vals(c)):
+        return False
+    # parsed and converted operands merge alike, in both directions
+    x, y = PM.parse_obj({"i": 1, "sub": {"n": 1}}), PM.to_partial(M(l=[5], sub=Inner(t="q")))
+    if norm(x.merge_with(y)) != {"i": 1, "l": [5], "st": set(), "sub": {"n": 1, "t": "q"}}:
+        return False
+    if norm(y.merge_with(x)) != {"i": 1, "l": [5], "st": set(), "sub": {"n": 1, "t": "q"}}:
+        return False
+    return issubclass(PIS, PI)
